@@ -16,21 +16,24 @@ import (
 
 // DriveOpts configures one check run (one property, one tier).
 type DriveOpts struct {
-	Property  string
-	Tier      string
-	Seed      uint64
-	Runs      int
-	Workers   int
-	ChunkSize int
-	Scratch   string // scratch directory (jobs, outputs, worker cwd)
-	Binary    string // the test binary (this program)
-	Evidence  string
-	Known     string
-	Replays   string
+	Property   string
+	Tier       string
+	Seed       uint64
+	Runs       int
+	Workers    int
+	ChunkSize  int
+	Scratch    string // scratch directory (jobs, outputs, worker cwd)
+	Binary     string // the test binary (this program)
+	Evidence   string
+	Known      string
+	Replays    string
 	JobTimeout time.Duration
-	Budget    time.Duration // wall-clock budget for the exploration phase
-	Race      bool
-	Manifest  map[string]any
+	Budget     time.Duration // wall-clock budget for the exploration phase
+	Race       bool
+	Manifest   map[string]any
+	otherSeed  map[string]uint64
+	Base       uint64 // development aid: first run seed (overrides the derivation from Seed)
+	Also       string // development aid: also minimise and report violations of these properties (comma separated)
 }
 
 // KnownFile is /verif/known_findings.json.
@@ -354,10 +357,10 @@ func (o *DriveOpts) minimise(p *Plan, sig string, budget int) (*Plan, int) {
 }
 
 type sigInfo struct {
-	sig    string
-	count  int
-	first  *Record
-	viol   Violation
+	sig   string
+	count int
+	first *Record
+	viol  Violation
 }
 
 // Drive runs the check and returns the process exit code.
@@ -389,6 +392,9 @@ func Drive(o *DriveOpts) int {
 	}
 	var chunks []chunk
 	base := o.Seed*1_000_003 + 17
+	if o.Base != 0 {
+		base = o.Base
+	}
 	for i := 0; i < o.Runs; i += o.ChunkSize {
 		c := chunk{id: len(chunks)}
 		for j := i; j < i+o.ChunkSize && j < o.Runs; j++ {
@@ -477,11 +483,15 @@ func Drive(o *DriveOpts) int {
 	// aggregate
 	sigs := map[string]*sigInfo{}
 	other := map[string]int{}
+	otherSeed := map[string]uint64{}
 	for _, r := range recs {
 		for _, v := range r.Violations {
 			s := v.Signature()
-			if v.Property != o.Property {
+			if v.Property != o.Property && !strings.Contains(","+o.Also+",", ","+v.Property+",") {
 				other[s]++
+				if _, ok := otherSeed[s]; !ok {
+					otherSeed[s] = r.Seed
+				}
 				continue
 			}
 			si := sigs[s]
@@ -494,7 +504,7 @@ func Drive(o *DriveOpts) int {
 	}
 	knownSet := map[string]KnownFinding{}
 	for _, k := range known.Findings {
-		if k.Property == o.Property {
+		if k.Property == o.Property || strings.Contains(","+o.Also+",", ","+k.Property+",") {
 			knownSet[k.Signature] = k
 		}
 	}
@@ -574,6 +584,7 @@ func Drive(o *DriveOpts) int {
 	}
 	os.RemoveAll(filepath.Join("/dev/shm", fmt.Sprintf("simcheck-%d", os.Getpid())))
 	wall := time.Since(start).Seconds()
+	o.otherSeed = otherSeed
 	if err := writeEvidence(o, recs, sigs, other, knownSeen, nviol, infra, skipped, wall); err != nil {
 		fmt.Printf("INFRA: cannot write evidence: %v\n", err)
 		return 2
